@@ -58,6 +58,8 @@ Mixed4 == [n \in 1..4 |-> n <= 2]
 AllIface5 == [n \in 1..5 |-> TRUE]
 Mixed5 == [n \in 1..5 |-> n <= 3]
 Mixed6 == [n \in 1..6 |-> n <= 3]
+Decl4 == [n \in 1..4 |-> FALSE]
+Decl5 == [n \in 1..5 |-> n <= 1]
 NoDef == {{}}
 AnyDef == SUBSET Nodes
 Def12 == {{1}, {1, 2}, {2}}
